@@ -160,3 +160,10 @@ let () =
           let (d, _) = Dfa_io.dfa_parts d in
           of_result of_witem (Lang.equiv_wdfa_expr (fuel_of fuel) d (expr_of e))
       | _ -> raise (Shape "wequiv args"))
+
+(* levels <valid-expr> -> (ok) | (bad): every leaf carries the index of its innermost || branch *)
+let () =
+  register "levels" (fun v ->
+      match v with
+      | List [e] -> List [Atom (if Lang.levels_ok (n_of_int 0) (expr_of e) then "ok" else "bad")]
+      | _ -> raise (Shape "levels args"))
